@@ -30,7 +30,7 @@ func init() {
 		Rule: "case = PRNG-generated event stream (valid by construction, confirmed by the real rules validator; strings/resource IDs/custom text from a Unicode torture table; " +
 			"comments at every position the grammar allows, <=5 per stream), encoded by the CTE encoder and decoded by the CTE decoder+rules into a recorder; oracle = equality of the " +
 			"canonical data views modulo padding, comments compared with text and kind. Non-trivial = >=1 container and >=3 value events; distinct = distinct rendered event logs.",
-		Assumptions: []string{"the harness's canonical view (ev.Canon) defines 'same data'", "comment texts avoid '*/' '/*' and line breaks in line comments (the validator does not constrain comment contents)",
+		Assumptions: []string{"the harness's canonical view (ev.Canon) defines 'same data'", "comment texts avoid '*/' and '/*' (also the ones a leading or trailing '*' or '/' would form with the encoder's delimiters) and line breaks / a trailing CR in line comments: the validator does not constrain comment contents, and CTE has no spelling for these",
 			"generator bounds: depth<=8, <=200 values, integers <=4096 bits, arrays <=2000 elements"},
 		Cases: func(tier string) int { return tierN(tier, 3000, 80000) },
 		Run:   runC02,
